@@ -64,7 +64,7 @@ def apply_unfolders(sid: str, unfolders: List[Callable]) -> List[Sid]:
         done = func(result)
         result = done
 
-    return sorted(set(result))
+    return sorted(set(result), key=lambda s: (s.string, s.type))
 
 
 @cache
